@@ -19,7 +19,7 @@ void gen_init(struct genst *g)
         memset(g, 0, sizeof *g);
         g->lines_left = (uint8_t)W.gen.lines;
         line_start(g);
-        if (w_feed) g->seg = SEG_DONE;
+        if (w_feed || W.gen.mode == 2) g->seg = SEG_DONE;
 }
 
 static struct genst after_lf(const struct genst *g)
